@@ -24,7 +24,7 @@ use rustc_middle::mir::{
     self, AggregateKind, BasicBlock, Body, BorrowKind, CastKind, Const, Operand, Place,
     ProjectionElem, Rvalue, StatementKind, TerminatorKind,
 };
-use rustc_middle::ty::print::with_no_trimmed_paths;
+use rustc_middle::ty::print::{with_crate_prefix, with_no_trimmed_paths};
 use rustc_middle::ty::{self, Instance, Ty, TyCtxt, TypeVisitableExt, TypingEnv};
 use rustc_span::Span;
 use std::fmt::Write as _;
@@ -79,8 +79,22 @@ fn key(tcx: TyCtxt<'_>, d: DefId) -> String {
     )
 }
 
+thread_local! {
+    static CRATE_PREFIX: std::cell::RefCell<String> = std::cell::RefCell::new(String::new());
+}
+
+/// Fully qualified printing: local items get the crate's name as prefix so that
+/// type strings are comparable across crates.
+fn fq(s: String) -> String {
+    if s.contains("crate::") {
+        CRATE_PREFIX.with(|p| s.replace("crate::", &format!("{}::", p.borrow())))
+    } else {
+        s
+    }
+}
+
 fn tystr(t: Ty<'_>) -> String {
-    with_no_trimmed_paths!(t.to_string())
+    fq(with_crate_prefix!(with_no_trimmed_paths!(t.to_string())))
 }
 
 fn span_str(tcx: TyCtxt<'_>, sp: Span) -> (String, bool) {
@@ -172,7 +186,7 @@ impl<'a, 'tcx> BodyCx<'a, 'tcx> {
                 o.push(',');
             }
             first = false;
-            let s = with_no_trimmed_paths!(a.to_string());
+            let s = fq(with_crate_prefix!(with_no_trimmed_paths!(a.to_string())));
             esc(&s, &mut o);
         }
         o.push(']');
@@ -195,7 +209,7 @@ impl<'a, 'tcx> BodyCx<'a, 'tcx> {
                         }
                     }
                     if let Some(first) = inst.args.iter().next() {
-                        resolved_args = Some(with_no_trimmed_paths!(first.to_string()));
+                        resolved_args = Some(fq(with_crate_prefix!(with_no_trimmed_paths!(first.to_string()))));
                     }
                 }
                 _ => {}
@@ -631,7 +645,7 @@ fn body_extra<'tcx>(tcx: TyCtxt<'tcx>, ld: LocalDefId) -> String {
             if let Some(tr) = tcx.impl_opt_trait_ref(imp) {
                 let tr = tr.skip_binder();
                 let _ = write!(o, ",\"impl_trait\":{}", js(&key(tcx, tr.def_id)));
-                let _ = write!(o, ",\"impl_trait_ref\":{}", js(&with_no_trimmed_paths!(tr.to_string())));
+                let _ = write!(o, ",\"impl_trait_ref\":{}", js(&fq(with_crate_prefix!(with_no_trimmed_paths!(tr.to_string())))));
             }
             if let Some(ai) = tcx.opt_associated_item(d) {
                 if let Some(ti) = ai.trait_item_def_id() {
@@ -720,7 +734,7 @@ fn dump_adts<'tcx>(tcx: TyCtxt<'tcx>, out: &mut String) {
                     if let Some(tr) = tcx.impl_opt_trait_ref(d) {
                         let tr = tr.skip_binder();
                         tr_s = js(&key(tcx, tr.def_id));
-                        tr_ref = js(&with_no_trimmed_paths!(tr.to_string()));
+                        tr_ref = js(&fq(with_crate_prefix!(with_no_trimmed_paths!(tr.to_string()))));
                     }
                 }
                 let (sp, exp) = span_str(tcx, tcx.def_span(d));
@@ -862,6 +876,7 @@ impl rustc_driver::Callbacks for Cb {
             return Compilation::Continue;
         }
         let label = crate_label(tcx, rustc_hir::def_id::LOCAL_CRATE);
+        CRATE_PREFIX.with(|p| *p.borrow_mut() = label.clone());
         let mut out = String::with_capacity(1 << 22);
         let src = tcx
             .sess
